@@ -136,7 +136,21 @@ func c02NewConfig(spec c02CfgSpec) (*c02Config, error) {
 					dd := c02Day(i)
 					d = fmt.Sprintf("%s-%s-%s", dd[:4], dd[4:6], dd[6:])
 				}
-				candidates = append(candidates, fmt.Sprintf("'%s %02d:%02d:%02d'", d, j, (j*7)%60, (j*13)%60))
+				tm := fmt.Sprintf("%02d:%02d:%02d", j, (j*7)%60, (j*13)%60)
+				if j == 1 {
+					// the second key of every table is the last instant of its period
+					// (the first one, j == 0, is the first instant)
+					switch spec.Rule {
+					case "date_year":
+						d = fmt.Sprintf("%d-12-31", 2014+i)
+					case "date_month":
+						m := c02Month(i)
+						last := map[string]string{"01": "31", "02": "28", "03": "31", "04": "30", "05": "31", "06": "30", "07": "31", "08": "31", "09": "30", "10": "31", "11": "30", "12": "31"}[m[4:]]
+						d = fmt.Sprintf("%s-%s-%s", m[:4], m[4:], last)
+					}
+					tm = "23:59:59"
+				}
+				candidates = append(candidates, fmt.Sprintf("'%s %s'", d, tm))
 			}
 		}
 	case "mycat_mod", "mycat_long", "mycat_murmur", "mycat_string":
@@ -227,6 +241,17 @@ func c02NewConfig(spec c02CfgSpec) (*c02Config, error) {
 		}
 	}
 	return cfg, nil
+}
+
+// c02LitLess compares two key literals of a layout by value.
+func c02LitLess(a, b string, t c02Type) bool {
+	va, err1 := c02ParseLit(a, t)
+	vb, err2 := c02ParseLit(b, t)
+	if err1 != nil || err2 != nil {
+		return a < b
+	}
+	c, _ := c02Cmp(va, vb)
+	return c < 0
 }
 
 func c02Month(i int) string { // i-th month starting 2014-05
@@ -572,7 +597,7 @@ var c02Atoms = []string{
 	// plain projection
 	"PROJ_STAR", "PROJ_STR", "PROJ_STR_PAIR", "PROJ_NUMS", "COL_ALIAS",
 	// WHERE
-	"W_NONKEY", "W_MIXED", "W_EMPTY", "W_KEY_EQ", "W_KEY_IN",
+	"W_NONKEY", "W_MIXED", "W_EMPTY", "W_KEY_EQ", "W_KEY_IN", "W_KEY_RANGE",
 	// aggregates
 	"COUNT_STAR", "COUNT_COL", "COUNT_DISTINCT", "SUM", "SUM_DISTINCT", "MAX", "MIN",
 	"ARG_DEC", "ARG_STR", "ARG_FLT", "ARG_NEG", "AGG_ALIAS",
@@ -598,7 +623,7 @@ var c02Slots = [][]string{
 	{"RULE_RANGE", "RULE_DATE", "RULE_MYCAT"},
 	{"JOIN_LINKED", "LEFT_JOIN_LINKED", "JOIN_GLOBAL"},
 	{"PROJ_STAR", "PROJ_STR", "PROJ_STR_PAIR", "PROJ_NUMS"},
-	{"W_KEY_EQ", "W_KEY_IN"},
+	{"W_KEY_EQ", "W_KEY_IN", "W_KEY_RANGE"},
 	{"ARG_DEC", "ARG_STR", "ARG_FLT", "ARG_NEG"},
 	{"ORDER_BY_COL", "ORDER_BY_HIDDEN", "ORDER_BY_ALIAS", "ORDER_BY_POS", "ORDER_BY_AGG"},
 	{"ORDER_STR", "ORDER_DEC", "ORDER_FLT", "ORDER_KEY"},
@@ -733,7 +758,19 @@ func c02BuildSQL(s c02Shape, cfg *c02Config) (string, bool) {
 	if s.has("W_EMPTY") {
 		conds = append(conds, tq+"a > 1000")
 	}
-	switch s.first("W_KEY_EQ", "W_KEY_IN") {
+	switch s.first("W_KEY_EQ", "W_KEY_IN", "W_KEY_RANGE") {
+	case "W_KEY_RANGE":
+		// from a key inside the first table to a key inside the second one (range and
+		// calendar rules prune the other tables); the full grid of key predicates is c02_keys
+		hi := cfg.keys[0][3]
+		if len(cfg.keys) > 1 {
+			hi = cfg.keys[1][2]
+		}
+		lo := cfg.keys[0][2]
+		if c02LitLess(hi, lo, cfg.keyType) {
+			lo, hi = hi, lo
+		}
+		conds = append(conds, tq+"id BETWEEN "+lo+" AND "+hi)
 	case "W_KEY_EQ":
 		conds = append(conds, tq+"id = "+cfg.keys[0][0])
 	case "W_KEY_IN":
